@@ -400,6 +400,25 @@ def gen_c03(inj, insts):
             src.append("pub static HEADER_K%d: [[u8; %d]; %d] = [%s];" % (k, k, len(ns), ", ".join('*b"%s"' % n for n in ns)))
         gen["HEADERS"] = "\n".join(src) + "\n"
         inj.extra_evidence["headers_by_native_run_of_real_new_and_get_header"] = {str(k): len(names.get(k, [])) for k in hks}
+    pks = sorted({k for i in insts for k in i.desc.get("pyheader_dump", [])})
+    gen["PYHEADERS"] = ""
+    if pks:
+        main = HEADER_DUMP_MAIN.replace("composition::oligo::verif_dumph", "pybindings::oligo::verif_dumpp") % ", ".join("%dusize" % k for k in pks)
+        out = inj.native_run("pybindings", main, ["pybindings"], "pyheaders")
+        names = {}
+        for line in out.splitlines():
+            if line.startswith("HN "):
+                _, k, n = line.split(" ", 2)
+                names.setdefault(int(k), []).append(n)
+        src = []
+        import inject as _inject
+        for k in pks:
+            ns = names.get(k, [])
+            if any(len(n.encode()) != k for n in ns):
+                raise _inject.InjectError("Python header dump for k=%d holds names that do not have k bytes: %r" % (k, [n for n in ns if len(n.encode()) != k][:3]))
+            src.append("pub static PYHEADER_K%d: [[u8; %d]; %d] = [%s];" % (k, k, len(ns), ", ".join('*b"%s"' % n for n in ns)))
+        gen["PYHEADERS"] = "\n".join(src) + "\n"
+        inj.extra_evidence["python_headers_by_native_run_of_real_new_and_get_header"] = {str(k): len(names.get(k, [])) for k in pks}
     return gen
 
 
@@ -433,6 +452,10 @@ def c03_instances(tier, seed):
         out.append(Inst("c03_header_dump_k%d" % k, "verif_c03h", "composition", "c03_header_dump::<%d>(&HEADER_K%d, &OCANON_K%d)" % (k, k, k), MAPU,
                         {"clause": "CLI header (real new + get_header, dumped by a native run) names the canonical k-mers in column order", "k": k,
                          "p": "symbolic column", "header_dump": [k]}, core=(k <= 5), timeout=1500, cost=20.0 * k))
+    for k in ((4, 5) if tier == "quick" else (4, 5, 6, 7)):
+        out.append(Inst("c03_pyheader_dump_k%d" % k, "verif_c03p", "pybindings", "c03_pyheader_dump::<%d>(&PYHEADER_K%d, &OCANON_K%d)" % (k, k, k), MAPU,
+                        {"clause": "Python binding header (real new + get_header, dumped by a native run) names the canonical k-mers in column order", "k": k,
+                         "p": "symbolic column", "pyheader_dump": [k]}, core=(k <= 5), timeout=1500, cost=20.0 * k))
     out.append(Inst("c03_pynew_k1", "verif_c03p", "pybindings", "c03_pynew::<1>(&RANK_K1, &INV_K1, COUNT_K1)", MAPU,
                     {"clause": "binding constructor executed by the solver stores the native tables", "k": 1, "tables": [1]}, core=False, timeout=1500, cost=300.0))
     return out
@@ -458,7 +481,7 @@ PROPS["C03"] = Prop(
     outside=["k = 9, 10 (tables of 2^18 / 2^20 entries)", "in-solver execution of get_header for k > 3 (the map model holds 32 entries); for k = 4..=7 the CLI header is dumped by a native run of the real new()+get_header() and the obligations over it are decided by the solver",
              "the wiring inside OligoComputer::new (calls rayon::current_num_threads) - the struct is built directly from the tables",
              "the join of the header vector with the delimiter presets (sits behind file I/O)", "OligoCgrComputer::new (calls rayon::current_num_threads)",
-             "Python binding header for k > 3"],
+             "in-solver execution of the Python binding's header for k > 3 (k = 4..=7 by native dump + solver obligations, like the CLI side)"],
     instances=c03_instances,
     shims=["hashmap", "bio"],
     generate=gen_c03,
@@ -1121,7 +1144,8 @@ PROPS["C18"].assumptions += [
     "inductive-step instances: the pre-state is ANY state satisfying the validity invariant of harness/kmer/verif_c18k.rs (inv), which the same instances prove to be inductive (base case c18_base_*, step c18_step_*); the ring model holds <= 8 buffered m-mers, the harness state array 4 (w-m+1 <= 4)",
 ]
 
-PROPS["C03"].pre_modules = [Module("composition", "verif_dumph", "harness/composition/verif_dumph.rs", parent="oligo")]
+PROPS["C03"].pre_modules = [Module("composition", "verif_dumph", "harness/composition/verif_dumph.rs", parent="oligo"),
+                             Module("pybindings", "verif_dumpp", "harness/pybindings/verif_dumpp.rs", parent="oligo")]
 
 
 # ---------------------------------------------------------------------------
